@@ -340,7 +340,9 @@ func (conn *Conn) read(ctx *Context, async bool) {
 		if ctx.Error == shutdownMsg {
 			call.Error = ErrShutdown
 		} else {
-			call.Error = errors.New(ctx.Error)
+			// The header decoders return zero-copy strings into the pooled read
+			// buffer, which is released below: copy the text.
+			call.Error = errors.New(string(append([]byte(nil), ctx.Error...)))
 		}
 		err = conn.codec.ReadResponseBody(nil, nil)
 		if err != nil {
